@@ -891,6 +891,10 @@ impl Server {
             // same path is a new one and has to be read from disk.
             self.document_map.remove(path.as_ref());
             self.parser_map.remove(path.as_ref());
+            // Nor may the end of the background analysis publish it again.
+            if self.latest_change.as_ref().is_some_and(|x| x.0 == url) {
+                self.latest_change = None;
+            }
             if let Some(path_id) = resource_table::get_path_id(path.to_path_buf()) {
                 Analyzer::drop_file(path_id, None);
             }
